@@ -162,8 +162,10 @@ def run(pid, tier, rep, binp):
             new_last = True
             if ed["op"] == "push":
                 # behind every object that was loaded from the file (new objects stand together at the end of the module)
-                tail = after[own1[1]:]
-                new_last = not any(re.match(r"\s*/begin (?!.*\b(new_|hist_))", l) for l in tail)
+                # (objects created through the API can have their name on the line behind /begin KIND)
+                tail = " ".join(after[own1[1]:]).split()
+                names = [tail[i + 2] for i in range(len(tail) - 2) if tail[i] == "/begin" and tail[i + 1] in TEMPLATES]
+                new_last = all(n.startswith(("new_", "hist_")) for n in names)
             events.append({"op": ed["op"], "before": [code(l) for l in before], "after": [code(l) for l in after], "own0": own0, "own1": own1,
                            "reloadEq": bool(e.get("reload") == "ok" and e.get("reload_eq")) or ed["op"] == "remove",
                            "textFix": bool(e.get("reload") == "ok" and e.get("text_fix")), "newLast": new_last})
